@@ -5,15 +5,16 @@
 (* value the server wrote (tagged like an instance; [t |-> "none"] when there   *)
 (* is none, [t |-> "malformed"] when the text is not JSON / has a number the    *)
 (* domain cannot hold), eq[k] whether the Go value decoded from the echo is     *)
-(* deeply equal to the first one and again[k] whether echoing the echo writes    *)
-(* the same bytes.                                                              *)
+(* deeply equal to the first one, again[k] whether echoing the echo writes the   *)
+(* same bytes and direct[k] what the type's own Decode made of the echo when    *)
+(* read from a buffer that is overwritten afterwards (0 same, 1 not judged).    *)
 EXTENDS RoundTrip, ObsLib, SequencesExt
 CONSTANT KnownDeviations
 InstFile == ndJsonDeserialize(IOEnv.VERIF_AUX)
 Insts == [i \in 1..Len(InstFile) |-> InstFile[i].v]
 Known == KnownDeviations \cap EchoDeviations
 \* <<class, text>> with class ok | skip | viol | known
-Judge(s, k, got, out, eq, again) ==
+Judge(s, k, got, out, eq, again, direct) ==
   LET in == Insts[k] IN
   IF got = 3 THEN <<"skip", "">>
   ELSE IF got = 2 THEN <<"viol", "neither-echoed-nor-refused">>
@@ -29,6 +30,10 @@ Judge(s, k, got, out, eq, again) ==
         ELSE <<"viol", "echo-invalid-against-schema">>)
   ELSE IF ~eq THEN <<"viol", "decoded-echo-differs-from-first-value">>
   ELSE IF ~again THEN <<"viol", "second-echo-differs">>
+  \* the decoded value is a function of the text alone: it does not change when the bytes the
+  \* type's own Decode read it from are overwritten afterwards (3; 2: Decode panicked)
+  ELSE IF direct = 2 THEN <<"viol", "own-decode-of-the-echo-panics">>
+  ELSE IF direct = 3 THEN <<"viol", "decoded-value-shares-memory-with-the-input-text">>
   ELSE <<"ok", "">>
 \* A value built in the driver process by a type-directed change of a decoded value (not
 \* read from JSON) that passes its own Validate: the server must write it (code 1), the
@@ -63,7 +68,7 @@ BuiltVerdict(o) ==
                           ELSE CHOOSE d \in KnownB : ImplValid(o.schema, o.out, {d}))
   ELSE "viol-" \o c
 EchoVerdict(o) ==
-  LET J(k) == Judge(o.schema, k, o.got[k], o.out[k], o.eq[k], o.again[k])
+  LET J(k) == Judge(o.schema, k, o.got[k], o.out[k], o.eq[k], o.again[k], o.direct[k])
       bad == {k \in 1..Len(o.got) : J(k)[1] = "viol"}
       known == {k \in 1..Len(o.got) : J(k)[1] = "known"} IN
   IF bad # {} THEN LET k == CHOOSE x \in bad : \A y \in bad : x <= y IN "viol-" \o J(k)[2] \o "-" \o ToString(k)
